@@ -1,24 +1,32 @@
 #!/usr/bin/env python3
-"""prints the markdown tables of DESIGN.md section 9.7 / 9.8 from seeded/*/meta.json and build/mutants_table.txt"""
-import glob, json, os, re
+"""regenerates the tables of DESIGN.md sections 9.7 / 9.8 (between the GENERATED markers) from
+seeded/*/*/meta.json and build/mutants_table.txt; `--print` writes them to stdout instead"""
+import glob, json, os, re, sys
 V = os.path.dirname(os.path.dirname(os.path.abspath(__file__)))
-rows = []
-for m in sorted(glob.glob(os.path.join(V, "seeded", "*", "*", "meta.json"))):
-    j = json.load(open(m))
-    rows.append(j)
-print("| property | seeded change | files | needs to manifest | first run | now | strengthening |")
-print("|---|---|---|---|---|---|---|")
+rows = [json.load(open(m)) for m in sorted(glob.glob(os.path.join(V, "seeded", "*", "*", "meta.json")))]
+a = ["| property | seeded change | files | needs to manifest | first run | now | strengthening |", "|---|---|---|---|---|---|---|"]
 for j in rows:
-    print("| %s | %s | %s | %s | %s | %s | %s |" % (j["property"], j["name"].replace("_", " "), ", ".join(os.path.basename(f) for f in j["files_changed"]),
-                                                 j["needs_to_manifest"], j["check_result_when_first_run"], j["check_result_now"], j.get("strengthening", "") or "-"))
+    a.append("| %s | %s | %s | %s | %s | %s | %s |" % (j["property"], j["name"].replace("_", " "), ", ".join(sorted(set(os.path.basename(f) for f in j["files_changed"]))),
+                                                j["needs_to_manifest"].replace("|", "\\|"), j["check_result_when_first_run"], j["check_result_now"], (j.get("strengthening", "") or "-").replace("|", "\\|")))
 first = sum(1 for j in rows if j["check_result_when_first_run"] == "detected")
 now = sum(1 for j in rows if j["check_result_now"] == "detected")
-print("\n%d seeded changes; detected on the first run: %d; detected now: %d\n" % (len(rows), first, now))
+a.append("\n%d seeded changes over %d properties; detected on the first run: %d; detected now: %d." % (len(rows), len(set(j["property"] for j in rows)), first, now))
+b = []
 p = os.path.join(V, "build", "mutants_table.txt")
 if os.path.exists(p):
-    print("| property | mutant | quick check | first violation key |")
-    print("|---|---|---|---|")
+    b += ["| property | mutant | quick check | first violation key |", "|---|---|---|---|"]
     for l in open(p):
         m = re.match(r"(C\d+) (\S+) (exit \d+)? ?\| ?(.*)", l.strip())
-        if m:
-            print("| %s | %s | %s | `%s` |" % (m.group(1), m.group(2).replace("_", " "), "caught" if m.group(3) == "exit 1" else (m.group(3) or "?"), m.group(4).strip().replace("|", "\\|")[:90]))
+        if m and not m.group(2).startswith("seeded:"):
+            b.append("| %s | %s | %s | `%s` |" % (m.group(1), m.group(2).replace("_", " "), "caught" if m.group(3) == "exit 1" else (m.group(3) or "?"), m.group(4).strip().replace("|", "\\|")[:90]))
+if "--print" in sys.argv:
+    print("\n".join(a)); print(); print("\n".join(b)); sys.exit(0)
+d = os.path.join(V, "DESIGN.md")
+s = open(d).read()
+def put(s, tag, lines):
+    if not lines:
+        return s
+    return re.sub(r"(<!-- BEGIN GENERATED %s -->\n).*?(<!-- END GENERATED %s -->)" % (tag, tag), lambda m: m.group(1) + "\n".join(lines) + "\n" + m.group(2), s, flags=re.S)
+s = put(s, "seeded", a)
+s = put(s, "mutants", b)
+open(d, "w").write(s)
